@@ -30,7 +30,10 @@ def run_case(rng, res, idx):
     from kverif import gen, kharness as kh
 
     cfg = kh.make_config(rng, callables=False, dtypes=('float64', 'float32', 'float32', 'bfloat16'), factor_dtypes=(None, None, 'float32', 'bfloat16'),
-                         inv_dtypes=('float32', 'float32', 'float64', 'bfloat16', 'float16'), kl=('const', 'big', 'none'))
+                         inv_dtypes=('float32', 'float32', 'float64', 'bfloat16', 'float16'), kl=('const', 'big', 'none'), scaler=True)
+    if rng.random() < 0.5:
+        cfg['scale'] = None   # half of the cases run without a gradient scaler
+    S = cfg.get('scale') or 1.0
     if kh.low_precision(cfg):
         # keep the damping above the resolution of the low-precision dtype so that "finite inputs" is meaningful
         cfg['damping'] = ('const', max(cfg['damping'][1], 0.05))
@@ -107,10 +110,10 @@ def run_case(rng, res, idx):
                 x = gen.make_batch(dgen, rng.randint(2, 6), in_shape, pdt)
             if twin is not None:
                 tout = twin(x)
-                gen.loss_fn(cfg['loss'], tout, lgen2).backward()
+                (gen.loss_fn(cfg['loss'], tout, lgen2) * S).backward()
             try:
                 out = model(x)
-                gen.loss_fn(cfg['loss'], out, lgen).backward()
+                (gen.loss_fn(cfg['loss'], out, lgen) * S).backward()
             except Exception as e:  # noqa: BLE001
                 if twin is None:
                     raise
@@ -122,6 +125,11 @@ def run_case(rng, res, idx):
             for (n, a), (_, b) in zip(model.named_parameters(), twin.named_parameters()):
                 if (a.grad is None) != (b.grad is None) or (a.grad is not None and not torch.equal(a.grad, b.grad)):
                     return res.violation(f'event {ei}: registering K-FAC changed the autograd gradient of {n}', case)
+        if S != 1.0:
+            with torch.no_grad():   # the user unscales the gradients before preconditioning
+                for q in model.parameters():
+                    if q.grad is not None:
+                        q.grad /= S
         if any(q.grad is not None and not torch.isfinite(q.grad).all() for q in model.parameters()) or not torch.isfinite(out).all():
             res.skip('non-finite inputs to the step')
             return
